@@ -54,7 +54,9 @@ TreeMoves(p) ==
   IF p.tpl # "dectree" THEN {}
   ELSE {[p EXCEPT !.l1 = p.l2, !.l2 = p.l1], [p EXCEPT !.l3 = p.l4, !.l4 = p.l3],
         [p EXCEPT !.l2 = p.l3, !.l3 = p.l2], [p EXCEPT !.l1 = p.l4, !.l4 = p.l1],
-        [p EXCEPT !.c2 = p.c3, !.c3 = p.c2, !.l1 = p.l3, !.l3 = p.l1, !.l2 = p.l4, !.l4 = p.l2]} \ {p}
+        [p EXCEPT !.c2 = p.c3, !.c3 = p.c2, !.l1 = p.l3, !.l3 = p.l1, !.l2 = p.l4, !.l4 = p.l2],
+        \* the two subtrees exchanged AND the leaves of each exchanged
+        [p EXCEPT !.c2 = p.c3, !.c3 = p.c2, !.l1 = p.l4, !.l4 = p.l1, !.l2 = p.l3, !.l3 = p.l2]} \ {p}
 
 Edge(p, q, kind) ==
   LET same == SameBehaviour(p, q) IN
